@@ -88,16 +88,23 @@ func (r *Result) CalculateWinnerRewards(potIdx int, l *LevelInfo) {
 	based := l.Total / int64(len(winners))
 	remainder := l.Total % int64(len(winners))
 
+	// Odd chips are handed out in turn across the levels of a pot, so that
+	// the shares of tied winners never differ by more than one chip
+	count := int64(len(winners))
+	offset := r.Pots[potIdx].oddOffset % count
+
 	for i, wIdx := range winners {
 
 		reward := based
 
-		if int64(i) < remainder {
+		if (int64(i)-offset+count)%count < remainder {
 			reward += 1
 		}
 
 		r.Update(potIdx, wIdx, l.Wager, reward-l.Wager)
 	}
+
+	r.Pots[potIdx].oddOffset = (offset + remainder) % count
 }
 
 func (r *Result) CalculateLoserResults(potIdx int, l *LevelInfo) {
